@@ -386,10 +386,10 @@ def _sig(v):
 
 
 HARNESSES = [
-    HarnessSpec('step', h_step, _p_step, replay=auto_replay(h_step), signature=_sig),
-    HarnessSpec('tree', h_tree, _p_tree, replay=auto_replay(h_tree), signature=_sig),
+    HarnessSpec('step', h_step, _p_step, replay=auto_replay(h_step), signature=_sig, witness_replay=True, witness_every=3),
+    HarnessSpec('tree', h_tree, _p_tree, replay=auto_replay(h_tree), signature=_sig, witness_replay=True),
     HarnessSpec('graft', h_graft, [{'variant': v, 'leaf': l} for v in ('left', 'right', 'prioritized') for l in (0, 1, 2)],
-                replay=auto_replay(h_graft), signature=_sig),
-    HarnessSpec('builder', h_builder, _p_builder, replay=auto_replay(h_builder), signature=_sig),
-    HarnessSpec('pack', h_pack, _p_pack, replay=auto_replay(h_pack), signature=_sig),
+                replay=auto_replay(h_graft), signature=_sig, witness_replay=True),
+    HarnessSpec('builder', h_builder, _p_builder, replay=auto_replay(h_builder), signature=_sig, witness_replay=True),
+    HarnessSpec('pack', h_pack, _p_pack, replay=auto_replay(h_pack), signature=_sig, witness_replay=True, witness_every=4),
 ]
